@@ -242,6 +242,12 @@ func VerifyWithCustomWOTSParamW(message, signature []uint8, extendedPK [Extended
 
 	hashFunction := desc.GetHashFunction()
 
+	// An unknown hash function id makes coreHash a no-op, so every recomputed
+	// root would be all-zero and match an all-zero root in the public key.
+	if hashFunction != SHA2_256 && hashFunction != SHAKE_128 && hashFunction != SHAKE_256 {
+		return false
+	}
+
 	k := WOTSParamK
 	w := wotsParamW
 	n := WOTSParamN
